@@ -121,3 +121,22 @@ def explore_config(vec, cfg, bound, consumer=('drain',), want=('verdicts', 'live
         if viols[0]['sig'] not in [v['sig'] for v in judge(r2)]:
             raise HarnessError('schedule did not reproduce its violation: nondeterminism not owned')
     return ex, viols, outcomes
+
+
+def replay_schedule(vec, cfg, consumer, schedule, want):
+    label = 'dedicated process, recycle %s, timeout %s, keep %s, consumer %s' % (cfg['recycle'], cfg['timeout'], cfg['keep'], consumer)
+    s1, r1 = vmp.run_equalizer(vec, schedule, dedicated=True, timeout=cfg['timeout'], recycle=cfg['recycle'], keep=cfg['keep'], consumer=consumer)
+    s2, r2 = vmp.run_equalizer(vec, schedule, dedicated=True, timeout=cfg['timeout'], recycle=cfg['recycle'], keep=cfg['keep'], consumer=consumer)
+    if repr(r1['out']) != repr(r2['out']):
+        raise HarnessError('the same schedule gave two different executions: nondeterminism not owned')
+    print('comparisons yielded:', [(o['id'], o['status'], o['message'], o['playback'], o['dt']) for o in r1['out']])
+    print('workers:', r1['tasks'], 'alive afterwards:', r1['alive'], 'deadlock:', r1['deadlock'], 'horizon:', r1['horizon'])
+    consumed = None if consumer[0] == 'drain' else consumer[1]
+    vs = []
+    if 'verdicts' in want and r1['ok'] and r1['finished']:
+        vs += judge_verdicts(vec if consumed is None else vec[:consumed], r1, cfg['keep'], label)
+    elif 'verdicts' in want and 'liveness' not in want:
+        vs.append(viol('verdicts:run-did-not-finish', 'the comparison run never finished', 'one verdict per id', [o['id'] for o in r1['out']]))
+    if 'liveness' in want:
+        vs += judge_liveness(vec, r1, cfg, label, consumed)
+    return vs
